@@ -2,6 +2,7 @@ pub mod c01;
 pub mod c02;
 pub mod c03;
 pub mod c04;
+pub mod c05;
 pub mod c09;
 pub mod c10;
 pub mod c14;
@@ -22,6 +23,7 @@ pub fn dispatch(id: &str, args: Args) -> ! {
         "C02" => c02::run(args),
         "C03" => c03::run(args),
         "C04" => c04::run(args),
+        "C05" => c05::run(args),
         "C09" => c09::run(args),
         "C10" => c10::run(args),
         "C14" => c14::run(args),
